@@ -270,7 +270,9 @@ async fn run_inner(sc: &TimeScenario) -> Outcome {
             }
             first_poll = false;
         }
-        if result.is_some() || events >= sc.max_events || !w(|w| w.viol.is_empty()) {
+        // (a violation of another property does not end the history: C10's own
+        // oracle still has to see how the call ends)
+        if result.is_some() || events >= sc.max_events || w(|w| w.viol.iter().any(|v| v.property == "C10")) {
             break;
         }
         // next event
@@ -528,8 +530,10 @@ async fn run_inner(sc: &TimeScenario) -> Outcome {
             let new: Vec<Violation> = std::mem::take(&mut w.viol);
             w.viol = saved;
             for v in new {
-                // capacity lost after a timeout / error path
-                w.violate(&["C10"], &format!("probe:{}", v.key), v.msg);
+                // capacity lost after a timeout / error path: C10's "slot
+                // released" clause, and C02's "whatever mixture of ... timed-out
+                // ... get() calls a pool has served"
+                w.violate(&["C10", "C02"], &format!("probe:{}", v.key), v.msg);
             }
         });
     }
